@@ -86,6 +86,15 @@ EXPLANATION = (
 )
 
 
+# observe_at annotator.extract_base_interactions: the wrapper hands the given structure AND model to both searches and files each
+# list under its own field (data-flow contract of contracts/glue_c.py; externals / assumptions as listed in props/_glue_text.py)
+from props import _glue_text as _GT
+DEDUCTIVE = list(DEDUCTIVE) + [{"module": "rnapolis.annotator", "sidecar": "contracts.glue_c", "targets": ["extract_base_interactions"]}]
+TRUSTED = list(TRUSTED) + ["glue contract extract_base_interactions (contracts.glue_c): find_pairs / find_stackings are opaque callees there (ghost names for their arguments only); lists are list objects with identity"]
+EXPLANATION = EXPLANATION + (" Glue: annotator.extract_base_interactions (contracts.glue_c) - both searches run on the given structure and the given model, "
+                             "the four lists are filed under their own fields of BaseInteractions, otherInteractions is a new empty list; a wrapper that drops the model "
+                             "for one of the searches (stackings of every model in a multi-model structure) fails `both-searches-run-on-the-given-structure-and-model`.")
+
 def bounded(tier, seed):
     return [_geom.run("pairs-vs-contacts", tier, seed,
                       lambda s, inter, find: GO.c03_check(s.residues, inter.basePairs, find),
